@@ -206,7 +206,10 @@ static inline ZParams zparams(Ctx &c, const ZFileOpts &o = ZFileOpts()) {
                      case 3: n = 131070 + c.draw(4); break; case 4: n = 132000 + c.draw(68000); break; default: n = 262143 + c.draw(2); break; }
         Bytes b(n); uint64_t seed = c.draw(0xffff);
         // incompressible (stored size ~ size, so the stored chunk crosses the block size too) or mildly compressible
-        if (c.chance(2, 3)) fill_random(b.data(), n, seed); else { pbt::Rng r(seed); for (auto &x : b) x = (uint8_t)(r.next() % 23); }
+        uint64_t ck = c.draw(3);
+        if (ck <= 1) fill_random(b.data(), n, seed); else if (ck == 2) { pbt::Rng r(seed); for (auto &x : b) x = (uint8_t)(r.next() % 23); }
+        else { std::fill(b.begin(), b.end(), 0); pbt::Rng r(seed); size_t head = r.below(3) == 0 ? 0 : 1 + r.below(40), tail = r.below(3) == 0 ? 0 : 1 + r.below(40);   // a disk-image style chunk: whole 32 KiB blocks of zeros
+               for (size_t i = 0; i < head && i < n; i++) b[i] = (uint8_t)(1 + r.below(255)); for (size_t i = 0; i < tail && i < n; i++) b[n - 1 - i] = (uint8_t)(1 + r.below(255)); }
         q.chunks[idx] = b; if (q.level > 3) q.level = 3;
     }
     return q;
